@@ -329,6 +329,7 @@ class Engine:
         self.solver = z3.Solver()
         self.queries = 0
         self.cache_hits = 0
+        self._pcsets = {}
         self._wit = None
         self.solver_s = 0.0
         self.paths_done = 0
@@ -415,10 +416,30 @@ class Engine:
         return None
 
     def prove(self, path_or_pc, claim):
-        """True iff pc => claim (checks pc /\\ not claim unsat). Returns (holds, model or None)."""
+        """True iff pc => claim (checks pc /\\ not claim unsat). Returns (holds, model or None).
+        Fast paths: conjuncts that literally occur in the path condition; refutation by the path's cached model."""
         pc = path_or_pc.pc if hasattr(path_or_pc, 'pc') else path_or_pc
         if isinstance(claim, bool):
             claim = z3.BoolVal(claim)
+        cs = z3.simplify(claim)
+        if z3.is_true(cs):
+            return True, None
+        key = id(pc)
+        pcset = self._pcsets.get(key)
+        if pcset is None or pcset[0] != len(pc):
+            pcset = (len(pc), {c.get_id() for c in pc} | {z3.simplify(c).get_id() for c in pc})
+            self._pcsets = {key: pcset}
+        conj = cs.children() if z3.is_and(cs) else [cs]
+        if all(c.get_id() in pcset[1] for c in conj):
+            return True, None
+        st = getattr(path_or_pc, 'st', None)
+        mdl = getattr(st, 'model', None) if st is not None else None
+        if mdl is not None:
+            try:
+                if z3.is_false(mdl.eval(cs, model_completion=True)):
+                    return False, mdl
+            except z3.Z3Exception:
+                pass
         self.queries += 1
         t0 = time.time()
         s = z3.Solver()
